@@ -51,20 +51,25 @@ PROPS['C20'] = dict(
     props='props/C20.v',
     models=['Dex', 'DexCheck', 'Ledger', 'DexBatch'],
     harness='c20',
-    args=dict(quick=['-fn', '600', '-swap', '200', '-withdraw', '200', '-deposit', '200', '-merge', '40'],
-              escalated=['-fn', '1500', '-swap', '600', '-withdraw', '600', '-deposit', '600', '-merge', '150'],
-              thorough=['-fn', '6000', '-swap', '3000', '-withdraw', '3000', '-deposit', '3000', '-merge', '300']),
+    args=dict(quick=['-fn', '600', '-swap', '200', '-withdraw', '200', '-deposit', '200', '-merge', '40', '-pipeline', '3', '-steps', '60'],
+              escalated=['-fn', '1500', '-swap', '600', '-withdraw', '600', '-deposit', '600', '-merge', '150', '-pipeline', '8', '-steps', '80'],
+              thorough=['-fn', '6000', '-swap', '3000', '-withdraw', '3000', '-deposit', '3000', '-merge', '300', '-pipeline', '40', '-steps', '150']),
     fingerprint_groups=['Dex'],
     rule='(fn) the generated SafeComputeDY/SafeMulDiv/SqrtProductUint64/percent helpers evaluated in Coq and in Go on amounts from '
          '{0,1,small,2^32,2^63,2^64-k,random}; (swap) the real HandleDexBatchOrders on a real FSM with reserves from {1,small,2^32,2^62,2^64-k,typical}, '
          'batches of 0-7 orders and batches around the 250-order settlement cap, requested amounts exactly at / one above the computed output, '
          'processed in the implementation\'s own pseudorandom order; (withdraw) real HandleBatchWithdraw on point tables with ghost (zero) entries, '
          'duplicate requests for one provider, unknown providers, local and remote side; (deposit) real HandleBatchDeposit with empty and populated '
-         'point tables; distinct by literal, non-trivial: every fn/withdraw/deposit case and swap batches with at least one order',
+         'point tables; (pipeline) two REAL state machines (chains 1 and 2, each with a liquidity pool for the other) run the whole cross-chain pipeline: '
+         'limit orders, deposits and withdrawals through the real message handlers, the other chain\'s locked batch delivered through '
+         'HandleRemoteDexBatch (receipts, execution, rotation) in both directions, one direction, not at all, or with the liveness fallback on the '
+         'nested side; after every step the holding pool must equal the sum of the pending orders and deposits, the liquidity points must sum to '
+         'the recorded total, and the combined supply of both chains must be unchanged (judged in Coq: pipe_ok); '
+         'distinct by literal, non-trivial: every fn/withdraw/deposit case and swap batches with at least one order',
     modelled='hand-modelled: the loop of HandleDexBatchOrders, handleBatchWithdraw, pass 2 of handleBatchDeposit, liquidityDepositPoints, Pool.AddPoints. '
-             'Generated from source: SafeComputeDY, SafeMulDiv, SqrtProductUint64, the settlement and provider caps. NOT modelled yet: the batch '
-             'pipeline (rotation, locked/next batch, receipts from the counter chain, liveness fallback, capped-deposit eviction, IncludeSameBlockDex) '
-             'and the sell-order escrow book; the holding/escrow pool identities of the property are therefore not claimed here (partial).',
+             'Generated from source: SafeComputeDY, SafeMulDiv, SqrtProductUint64, the settlement and provider caps. The same-block merge (IncludeSameBlockDex) and the sell-order escrow book are modelled (model/DexBatch.v, model/Ledger.v). NOT modelled: the '
+             'cross-chain batch pipeline as a state machine (rotation, receipts from the counter chain, liveness fallback, capped-deposit eviction): its '
+             'holding-pool and points identities are judged on two real chains after every pipeline step by a Coq-evaluated predicate, not proved.',
     assumptions=['reserves and amounts below 2^64 (uint64)', 'withdraw percent within 1..100 (checkPercent in MessageDexLiquidityWithdraw.Check)',
                  'big.Int division by zero (x = 0 and dX = 0) is excluded by the callers\' ErrInvalidLiquidityPool guard'],
     trusted_base=['model/Dex.v is a hand-written mirror of the DEX arithmetic loops tied by the correspondence run'],
